@@ -205,6 +205,30 @@ Definition tr_WriteString (data : (list N)) (tag : Z) (out : list N) : ctl (list
     (fun out : (list N) =>
     Return (out, false))).
 
+Definition k_codec_FLOAT : Z := 4.
+(* tars/protocol/codec/codec.go: func Buffer.WriteFloat32 *)
+Definition tr_WriteFloat32 (data : Z) (tag : Z) (out : list N) : ctl (list N) (list N * bool) :=
+  let err : bool := false in
+    go_call (tr_WriteHead k_codec_FLOAT tag out) (fun r__ => let '(out, err) := r__ in
+    bindc (if (negb (Bool.eqb err false))
+      then Return (out, err)
+      else Next out)
+    (fun out : (list N) =>
+    let out := out ++ (go_emit_u32 data) in let err := false in
+    Return (out, err))).
+
+Definition k_codec_DOUBLE : Z := 5.
+(* tars/protocol/codec/codec.go: func Buffer.WriteFloat64 *)
+Definition tr_WriteFloat64 (data : Z) (tag : Z) (out : list N) : ctl (list N) (list N * bool) :=
+  let err : bool := false in
+    go_call (tr_WriteHead k_codec_DOUBLE tag out) (fun r__ => let '(out, err) := r__ in
+    bindc (if (negb (Bool.eqb err false))
+      then Return (out, err)
+      else Next out)
+    (fun out : (list N) =>
+    let out := out ++ (go_emit_u64 data) in let err := false in
+    Return (out, err))).
+
 Definition k_endpoint_EStaticWeight : Z := 1.
 Definition k_selector_minStaticWeightLimit : Z := 10.
 Definition k_selector_maxStaticWeightLimit : Z := 100.
@@ -744,6 +768,64 @@ Definition tr_ReadString (fuel : nat) (data : (list N)) (tag : Z) (require : boo
         Next (rd, data, err)))
     (fun st : go_reader * (list N) * bool => let '(rd, data, err) := st in
     Return (rd, data, false))))).
+
+(* tars/protocol/codec/codec.go: func Reader.ReadFloat32 *)
+Definition tr_ReadFloat32 (fuel : nat) (data : Z) (tag : Z) (require : bool) (rd : go_reader) : ctl unit (go_reader * Z * bool) :=
+  go_call (tr_SkipToNoCheck fuel tag require rd) (fun r__ => let '(rd, have, ty, err) := r__ in
+    bindc (if (negb (Bool.eqb err false))
+      then Return (rd, data, err)
+      else Next rd)
+    (fun rd : go_reader =>
+    bindc (if (negb have)
+      then Return (rd, data, false)
+      else Next rd)
+    (fun rd : go_reader =>
+    let tag__1 := ty in
+    bindc (if (tag__1 =? 12) then let data := 0 in
+        Next (rd, data, err)
+      else (if (tag__1 =? 4) then let tmp : Z := 0 in
+        let '(rd, tmp, err) := (go_rd_u32 rd) in
+        let data := tmp in
+        Next (rd, data, err)
+      else (Return (rd, data, true))))
+    (fun st : go_reader * Z * bool => let '(rd, data, err) := st in
+    bindc (if (negb (Bool.eqb err false))
+      then let err := true in
+        Next (rd, err)
+      else Next (rd, err))
+    (fun st : go_reader * bool => let '(rd, err) := st in
+    Return (rd, data, err)))))).
+
+(* tars/protocol/codec/codec.go: func Reader.ReadFloat64 *)
+Definition tr_ReadFloat64 (fuel : nat) (data : Z) (tag : Z) (require : bool) (rd : go_reader) : ctl unit (go_reader * Z * bool) :=
+  go_call (tr_SkipToNoCheck fuel tag require rd) (fun r__ => let '(rd, have, ty, err) := r__ in
+    bindc (if (negb (Bool.eqb err false))
+      then Return (rd, data, err)
+      else Next rd)
+    (fun rd : go_reader =>
+    bindc (if (negb have)
+      then Return (rd, data, false)
+      else Next rd)
+    (fun rd : go_reader =>
+    let tag__1 := ty in
+    bindc (if (tag__1 =? 12) then let data := 0 in
+        Next (rd, data, err)
+      else (if (tag__1 =? 4) then let tmp : Z := 0 in
+        let '(rd, tmp, err) := (go_rd_u32 rd) in
+        let data := (go_f32_to_f64 tmp) in
+        Next (rd, data, err)
+      else (if (tag__1 =? 5) then let tmp_1 : Z := 0 in
+        let '(rd, tmp_1, err) := (go_rd_u64 rd) in
+        let data := tmp_1 in
+        Next (rd, data, err)
+      else (Return (rd, data, true)))))
+    (fun st : go_reader * Z * bool => let '(rd, data, err) := st in
+    bindc (if (negb (Bool.eqb err false))
+      then let err := true in
+        Next (rd, err)
+      else Next (rd, err))
+    (fun st : go_reader * bool => let '(rd, err) := st in
+    Return (rd, data, err)))))).
 
 (* tars/protocol/codec/codec.go: func Reader.ReadSliceUint8 *)
 Definition tr_ReadSliceUint8 (data : (list N)) (len : Z) (require : bool) (rd : go_reader) : ctl unit (go_reader * (list N) * bool) :=
